@@ -30,10 +30,15 @@ type Op struct {
 	Dst  *string  `json:"dst,omitempty"`  // reconnect
 }
 
-func (o Op) String() string {
-	b, _ := json.Marshal(o)
-	return string(b)
+func jsonNoEsc(v any) string {
+	var sb strings.Builder
+	e := json.NewEncoder(&sb)
+	e.SetEscapeHTML(false)
+	e.Encode(v)
+	return strings.TrimSuffix(sb.String(), "\n")
 }
+
+func (o Op) String() string { return jsonNoEsc(o) }
 
 func sp(s string) *string { return &s }
 
@@ -54,10 +59,7 @@ type Case struct {
 	Ops   []Op              `json:"ops"`
 }
 
-func (c Case) JSON() string {
-	b, _ := json.Marshal(c)
-	return string(b)
-}
+func (c Case) JSON() string { return jsonNoEsc(c) }
 
 func compileFS(text string, files map[string]string) (*d2graph.Graph, error) {
 	m := fstest.MapFS{}
